@@ -235,8 +235,9 @@ def finish(prop, tier, seed, t0, coverage, violations, assumptions, drift=None, 
     coverage["known_findings_seen"] = n_known
     ev = dict(property_id=prop, tier=tier, seed=int(seed), level=level, coverage=coverage,
               assumptions=assumptions, wall_s=round(time.time() - t0, 2), violations=n_new)
-    os.makedirs(os.path.join(VERIF, "evidence"), exist_ok=True)
-    with open(os.path.join(VERIF, "evidence", prop + ".json"), "w") as f:
+    evdir = os.environ.get("VERIF_EVIDENCE", os.path.join(VERIF, "evidence"))   # mutant / benign runs write elsewhere
+    os.makedirs(evdir, exist_ok=True)
+    with open(os.path.join(evdir, prop + ".json"), "w") as f:
         json.dump(ev, f, indent=1, sort_keys=True)
         f.write("\n")
     log("%s %s: %s (%.1fs) %s" % (prop, tier, "VIOLATION" if rc else "ok", time.time() - t0,
